@@ -314,3 +314,35 @@ def run(ck, facts):
     # the generator that reads an enum out of memory must use that signed reader
     import c08
     c08.js_deref_rules(ck, "R1", facts, enum_only=True)
+    # Kotlin: positional conversions live only in the template's Contiguous arm; the generator's own literals convert enums with toNative()/fromNative()
+    kfns = [f for f in tool.fn_list if f["path"].startswith("diplomat_tool::kotlin::") and "hir" in f and f.get("dk") != "Closure" and not f.get("exp") and "render_into" not in f["path"]]
+    pos_lits = []
+    n_native = 0
+    for f in kfns:
+        for x in C.walk(C.fn_body(f)):
+            txt = x.get("v") if x.get("k") == "lit" and x.get("t") == "str" else (x.get("src") if x.get("k") == "macro" and x.get("name") in ("format", "write", "writeln") else None)
+            if not txt:
+                continue
+            if re.search(r"\.ordinal\b|\.entries\s*\[|\.values\(\)\s*\[", txt):
+                pos_lits.append((C.norm_path(f["path"]).split("::")[-1], txt[:50]))
+            if "toNative()" in txt or "fromNative(" in txt:
+                n_native += 1
+    ck.expect(not pos_lits and n_native >= 3, "R1", "kotlin/no-positional-conversion-in-generator", "%d toNative/fromNative literals, no .ordinal/.entries[]" % n_native,
+              "the Kotlin generator converts an enum by position (%s): for an enum with explicit discriminants Rust receives/returns the wrong variant" % pos_lits[:3], None)
+    # JS: in the non-contiguous branch the variant is found by comparing the stored discriminant, never by position in a derived array
+    toks = tmpl.load("js/enum.js.jinja", resolve_includes=False)
+    flags = []
+    bad_js = []
+    for kind, v in toks:
+        if kind == "stmt":
+            if re.match(r"if\b", v):
+                flags.append("C" if re.search(r"(?<!!)\bis_contiguous\b", v) and not re.search(r"!\s*is_contiguous", v) else ("N" if "is_contiguous" in v else "?"))
+            elif re.match(r"else\b", v) and flags:
+                flags[-1] = {"C": "N", "N": "C"}.get(flags[-1], "?")
+            elif re.match(r"endif\b", v) and flags:
+                flags.pop()
+        elif kind == "text" and "N" in flags and "C" not in flags:
+            if re.search(r"Object\.(values|keys|entries)\([^)]*\)\s*(\.indexOf|\[)|\.keys\(\)\s*\]\s*\[|\.indexOf\(", v):
+                bad_js.append(v.strip()[:70])
+    ck.expect(not bad_js, "R1", "js/enum.js.jinja/non-contiguous-by-value", "", "the non-contiguous branch of the JS enum looks a variant up by its position in a derived array (%s): "
+              "JS orders integer-like keys numerically, so positions and discriminants disagree" % bad_js[:2], "tool/templates/js/enum.js.jinja")
